@@ -71,10 +71,11 @@ template <int I> struct Impl<I, false, false> {
   SV process_model(double dt, const SV& s) const { SV o{++g_counter}; printf("p %a %d %d\n", dt, s.token, o.token); return o; }
 };
 template <typename F, bool HasCal> struct Rd;
+// key 2 behaves like a rejected reading: the estimate it was given comes back unchanged
 template <typename F> struct Rd<F, true> : F::StampedReadingBase { int key = 0;
-  SV sensor_model(const F&, const SV& s, const Cal&) const override { SV o{++g_counter}; printf("s %d %d %d\n", key, s.token, o.token); return o; } };
+  SV sensor_model(const F&, const SV& s, const Cal&) const override { SV o{key == 2 ? s.token : ++g_counter}; printf("s %d %d %d\n", key, s.token, o.token); return o; } };
 template <typename F> struct Rd<F, false> : F::StampedReadingBase { int key = 0;
-  SV sensor_model(const F&, const SV& s) const override { SV o{++g_counter}; printf("s %d %d %d\n", key, s.token, o.token); return o; } };
+  SV sensor_model(const F&, const SV& s) const override { SV o{key == 2 ? s.token : ++g_counter}; printf("s %d %d %d\n", key, s.token, o.token); return o; } };
 
 static double rdd() { double v; if (scanf("%la", &v) != 1) exit(3); return v; }
 static int rdi() { int v; if (scanf("%d", &v) != 1) exit(3); return v; }
@@ -203,6 +204,11 @@ class RecordingFilter:
         return (self.counter, covariance)
 
     def sensor_model(self, state, covariance, *, sensor_key, sensor_reading):
+        if sensor_key == 2:
+            # like a reading rejected by innovation filtering: the very same estimate comes back; the runtime must
+            # still hold it at the reading's timestamp
+            self.events.append(("s", sensor_key, state, state))
+            return (state, covariance)
         self.counter += 1
         self.events.append(("s", sensor_key, state, self.counter))
         return (self.counter, covariance)
